@@ -15,7 +15,7 @@ def first_rule(text):
 
 
 def classify(ev):
-    what = "panic" if ev["panic"] else "neither-model-nor-error" if (ev["ok"] and ev["modelnil"]) else "blank-input-accepted" if (ev["blank"] and ev["ok"]) else "unrepresentable-number-accepted" if (ev.get("unrepresentable") and ev["ok"]) else "time-budget-exceeded"
+    what = "panic" if ev["panic"] else "neither-model-nor-error" if (ev["ok"] and ev["modelnil"]) else "blank-input-accepted" if (ev["blank"] and ev["ok"]) else ("lexical-error-accepted" if ev.get("class") == "lexical-garbage" else "unrepresentable-number-accepted") if (ev.get("unrepresentable") and ev["ok"]) else "time-budget-exceeded"
     return "%s/%s/%s" % (what, first_rule(ev["input"]), ev["context"])
 
 
@@ -25,7 +25,8 @@ def run(ctx):
     ctx.assumptions += ["TLC 1.8.0 + CommunityModules (the spec is a per-call monitor here: a TLA+ model adds little to a totality property)",
                         "inputs: the repository's corpora, statements of every top-level grammar form, literal extremes, invalid UTF-8, nesting up to 80 (thorough 400), "
                         "unbalanced delimiters, seeded token-level mutations of the corpus, 31 expression kinds in 19 expression positions with every token-boundary prefix and stray delimiters "
-                        "(the trees ANTLR's error recovery produces), and numbers no Go type can hold in 18 number positions (these must be rejected: a model without them has a hole)", "time budget 10 s per call (the unchanged tree needs < 0.25 s for the largest input), best of three"]
+                        "(the trees ANTLR's error recovery produces), numbers no Go type can hold in 18 number positions and characters no token can hold (unterminated quotes, #, ?, !, NUL, "
+                        "invalid UTF-8, ...) at the end of and inside valid queries (both must be rejected: a model without them has a hole)", "time budget 10 s per call (the unchanged tree needs < 0.25 s for the largest input), best of three"]
     trace = os.path.join(ctx.work, "fuzz.ndjson")
     args = ["front", "fuzz", "--out", trace, "--seed", str(ctx.seed), "--per-text", "3" if quick else "40"] + ([] if quick else ["--deep"])
     ctx.vh(args, timeout=3000)
